@@ -48,17 +48,17 @@
 @@ MessageBufReader::new spec
     ensures r.wf(), r.view() == Seq::<u8>::empty()
 @@ MessageBufReader::new_with_data spec
-    requires start <= buf@.len(), 1 <= buf@.len() <= 0x1_0000_0000
+    requires start <= buf@.len(), 1 <= buf@.len() <= 0x100_0000_0000
     ensures r.wf(), r.view() == buf@.skip(start as int)
 @@ MessageBufReader::is_empty spec
     requires self.wf()
     ensures r ==> (self.view().len() > 0 && self.view()[0] == 0),
         (!r && self.view().len() > 0) ==> self.view()[0] != 0,
 @@ MessageBufReader::append_next_buf spec
-    requires old(self).wf(), old(self).view().len() + next_buf@.len() <= 0x4000_0000
+    requires old(self).wf(), old(self).view().len() + next_buf@.len() <= 0x2_0000_0000
     ensures final(self).wf(), final(self).view() == old(self).view().add(next_buf@)
 @@ MessageBufReader::capacity_expansion spec
-    requires old(self).wf(), old(self).buf@.len() <= 0x8000_0000
+    requires old(self).wf(), old(self).buf@.len() <= 0x80_0000_0000
     ensures final(self).start == old(self).start, final(self).end == old(self).end, final(self).next_len == old(self).next_len,
         final(self).buf@.len() == 2 * old(self).buf@.len(),
         forall|j: int| 0 <= j < old(self).buf@.len() ==> final(self).buf@[j] == old(self).buf@[j],
@@ -81,10 +81,10 @@
 @@ MessageBufReader::append_next_buf loop 1
     invariant
         self.start == 0, self.end == old(self).end - old(self).start, self.end <= self.buf@.len(),
-        1 <= self.buf@.len() <= 0x1_0000_0000,
-        self.end + next_buf@.len() <= 0x4000_0000,
+        1 <= self.buf@.len() <= 0x100_0000_0000,
+        self.end + next_buf@.len() <= 0x2_0000_0000,
         forall|j: int| 0 <= j < self.end ==> self.buf@[j] == b0[j + s0],
-    decreases 0x2_0000_0000 - self.buf@.len()
+    decreases 0x200_0000_0000 - self.buf@.len()
 @@ MessageBufReader::append_next_buf exit
     proof { assert(self.view() =~= v0.add(next_buf@)); }
 @@ MessageBufReader::next_message_vec entry
